@@ -591,6 +591,81 @@ def exec {C : Type} [DecidableEq C] (conv : Conv C) (w : World C) (h : List HSte
 
 def World.init {C : Type} : World C := { fs := FS.empty, clock := 0, log := [] }
 
+/-! ## One pipeline object used for several runs
+
+Which elements keep state from one `run` to the next (read off the code):
+
+* `RenderLaTeX`: its jinja2 `Environment` caches the compiled template together with the modification time
+  the template file had when it was loaded; `get_template` re-uses the cached template iff the file's
+  modification time is still the same (`auto_reload`, `FileSystemLoader.get_source` … `uptodate`).
+  Modelled: `PipeState.cache`, `getTemplate`.
+* `LaTeXToPDF`: the pool `self.processes` — emptied (`clear()`) at the end of every completed `run`; the model
+  runs a launched command to completion, so the pool is empty between runs (not a state component).
+* `ToCSV`, `MakeFilename` (`_methods`, `_overwrite`: constants), `Write` (`output_directory`, the two options:
+  constants; no static context is set in these pipelines), `PDFToPNG`, `MapGroup`: nothing that a run changes —
+  in the model their functions take no state argument, so a run cannot depend on earlier runs through them. -/
+
+/-- the template file on disk: its content (template id) and its modification time -/
+structure TplFile where
+  tpl : Nat
+  mtime : Nat
+  deriving Repr, DecidableEq
+
+/-- what a pipeline object carries from one run to the next: the template cache of its `RenderLaTeX`
+(`(template, modification time at load)`) -/
+structure PipeState where
+  cache : Option (Nat × Nat) := none
+  deriving Repr, DecidableEq
+
+/-- `self._environment.get_template(name)`: the cached template if the file's modification time is the one
+recorded at load, otherwise the file is read (and cached) -/
+def getTemplate (st : PipeState) (f : TplFile) : Nat × PipeState :=
+  match st.cache with
+  | some (t, m) => if m = f.mtime then (t, st) else (f.tpl, { cache := some (f.tpl, f.mtime) })
+  | none => (f.tpl, { cache := some (f.tpl, f.mtime) })
+
+/-- one run of an existing pipeline object whose state is `st`, with the template file `f` on disk (`r.tpl` is
+not used: the template comes from the file through the cache).  A run without values does not look at the
+template. -/
+def runObject {C : Type} [DecidableEq C] (conv : Conv C) (st : PipeState) (w : World C) (r : RunSpec) (f : TplFile) :
+    Except Exc (World C × List (Val C) × PipeState) :=
+  let g := getTemplate st f
+  match runSpec conv w { r with tpl := g.1 } with
+  | .error e => .error e
+  | .ok (w', vs) => .ok (w', vs, if r.plots.isEmpty then st else g.2)
+
+/-- a step of the life of one pipeline object: a run (data and options of `r`), the removal of files, an edit
+of the template file (new content; the modification time moves on, as it does for a real edit) -/
+inductive OStep where
+  | run (r : RunSpec)
+  | del (ps : List String)
+  | edit (tpl : Nat)
+  deriving Repr, DecidableEq
+
+structure OState (C : Type) where
+  w : World C
+  st : PipeState
+  f : TplFile
+
+def ostep {C : Type} [DecidableEq C] (conv : Conv C) (s : OState C) : OStep → OState C
+  | .edit t => { s with f := ⟨t, s.f.mtime + 1⟩ }
+  | .del ps => { s with w := step conv s.w (.del ps) }
+  | .run r =>
+    match runObject conv s.st s.w r s.f with
+    | .ok (w', _, st') => { s with w := w', st := st' }
+    | .error _ => s
+
+def oexec {C : Type} [DecidableEq C] (conv : Conv C) (s : OState C) (h : List OStep) : OState C :=
+  h.foldl (ostep conv) s
+
+/-- the same history when a new pipeline object is built for every run: every run renders the template that
+is on disk -/
+def freshHistory : Nat → List OStep → List HStep
+  | _, [] => []
+  | _, .edit t' :: rest => freshHistory t' rest
+  | t, .del ps :: rest => .del ps :: freshHistory t rest
+  | t, .run r :: rest => .run { r with tpl := t } :: freshHistory t rest
+
 /-! ## A concrete content type (free terms: converters that embed what they read) -/
 
 /-- contents of the stub pipeline: CSV of data `d`, text of template `t` naming the files `deps`,
